@@ -379,7 +379,7 @@ impl IndexBlockCursor {
             FN: FnMut(&mut BlockCursor<Block>) -> Option<(&[u8], &[u8])>,
         {
             match blocks.split_last_mut() {
-                Some(((_offset, cursor), head)) => {
+                Some(((block_offset, cursor), head)) => {
                     match (mov)(cursor) {
                         Some((_key, _offset)) => Ok(cursor.current()),
                         None => {
@@ -394,6 +394,10 @@ impl IndexBlockCursor {
                                     reader.seek(SeekFrom::Start(offset))?;
                                     *cursor = Block::new(reader, compression_type)
                                         .map(Block::into_cursor)?;
+                                    // Remember which block is now loaded at this level, otherwise
+                                    // a later absolute move would wrongly believe that the
+                                    // previous block is still the one in memory.
+                                    *block_offset = offset;
 
                                     // We return the result of the call has is. If it returns None
                                     // it means we are not able to execute the `mov` function.
